@@ -293,7 +293,20 @@ pub fn gen_scen(rng: &mut Rng, _thorough: bool) -> Scen {
             for sd in 0..n { match rng.below(5) { 0 => { seeds.insert(sd.to_string(), json!({"stdout": "{\"objFuncVal\": null}"})); } 1 => { seeds.insert(sd.to_string(), json!({"stdout": "{}"})); } _ => { acc += 1; } } }
             sc.plan = json!({"default": {"value_of_seed": *rng.pick(&["neg", "pos", "const"])}, "seeds": seeds});
             sc.out_dir = *rng.pick(&[0, 1, 1]);
-            if rng.chance(1, 2) { sc.spec_yaml = SPEC_HOSTILE.into(); }
+            match rng.below(6) {
+                0 | 1 | 2 => { sc.spec_yaml = SPEC_HOSTILE.into(); }
+                // a root enum: every parameter set is a top-level JSON string
+                3 => { sc.spec_yaml = "type: enum\nvalues: [plain, \"two words\", \"quo\\\"te\", \"7\", \"true\"]\ninit: plain\n".into(); }
+                // many members with multi-byte names: the initial value is several hundred bytes of JSON, and wherever a
+                // byte-indexed cut falls, in some of these documents it falls inside a character
+                4 => {
+                    let mut y = String::new();
+                    let shift = rng.below(7) as usize;
+                    for i in 0..28 { y += &format!("\"{}{}st\u{e4}rke{}\":\n  type: real\n  init: 0.{}\n  scale: 0.1\n", "x".repeat(if i == 0 { shift } else { 0 }), ["\u{e4}", "\u{20ac}", "\u{1f600}", "\u{f6}\u{fc}"][i % 4], i, i + 1); }
+                    sc.spec_yaml = y;
+                }
+                _ => {}
+            }
             if rng.chance(1, 2) { sc.user_args = vec![b"plain".to_vec(), b"with space".to_vec(), b"--looks-like-option".to_vec(), b"quo\"te'".to_vec(), vec![0xff, 0xfe, b'x']]; }
             sc.expect = json!({"exit": if acc > 0 { "ok" } else { "fail" }, "starts": n, "maxConcurrent": nc, "survivors": 0, "accepted": acc, "rejected": n - acc, "argv": true});
             sc
@@ -328,6 +341,8 @@ pub fn gen_scen(rng: &mut Rng, _thorough: bool) -> Scen {
             // interrupt
             let mut sc = base_scen("sigint");
             sc.opts = vec![s("--num-concurrent"), nc.to_string()];
+            // an interrupt is taken the same way when a (far away) time limit is set as well
+            if rng.chance(1, 2) { sc.opts.push(s("--terminate-after")); sc.opts.push(s("10min")); }
             // (a child whose background process keeps the stdout pipe open never completes: the one that is released does not fork)
             sc.plan = json!({"default": {"wait": true, "value_of_seed": "neg", "fork": *rng.pick(&["none", "keep"]), "fork_ignore_term": true, "ignore_term": rng.chance(1, 2)},
                              "seeds": {"0": {"wait": true, "value_of_seed": "neg", "ignore_term": rng.chance(1, 2)}}});
